@@ -56,9 +56,10 @@ def make_history(rng):
         for _ in range(rng.randrange(1, 5)):
             if rng.random() < 0.45:
                 s, a = rng.choice(hot)
-            else:
-                s = rng.choice([0, 0, 1])
-                a = rng.choice(TARGETS[s])
+                batch.append((s, a, rng.choice(VALUES[:3]), True))       # hot cells alternate between few values: a, b, a again
+                continue
+            s = rng.choice([0, 0, 1])
+            a = rng.choice(TARGETS[s])
             batch.append((s, a, rng.choice(VALUES), rng.random() < 0.5))
         hist.append(batch)
     return hist
@@ -114,10 +115,25 @@ def run_history(ctx, hid, spec, hist, hs):
     edited = copy.deepcopy(spec)
     base_rows = {si: max(wbspec.rc(a)[0] for a in sh['cells']) for si, sh in enumerate(spec['sheets'])}
     written, twice, formula_overridden, beyond = set(), False, False, []
+    held = {}          # (sheet, address, value repr, style) -> the Cell object the caller built for that write the first time
     for step, batch in enumerate(hist):
         cells = []
         for (s, a, v, a1style) in batch:
-            cells.append(to_cell(titles, s, a, v, a1style))
+            # the caller keeps its Cell objects and submits the SAME object again when it writes the same value to the same cell later
+            # (prepared history objects): the library must neither keep writing into them nor prefer an older object of that address
+            hk = (s, a, repr(v), a1style)
+            if hk in held:
+                c_old, v_old = held[hk]
+                if not (type(c_old.value) is type(v_old) and c_old.value == v_old):
+                    report(r, ID, None, {'history': hist, 'step': step, 'cell': [s, a], 'spec': spec, 'hashseed': hs, 'hid': hid},
+                           {'value_now_in_the_callers_cell_object': wbspec.enc(c_old.value)}, {'value_the_caller_put_there': wbspec.enc(v_old)},
+                           monitor='caller-cell-object-mutated')
+                    c_old.value = v_old
+                cells.append(c_old)
+                r.count('cell_objects_resubmitted')
+            else:
+                cells.append(to_cell(titles, s, a, v, a1style))
+                held[hk] = (cells[-1], v)
             if (s, a) in written:
                 twice = True
             written.add((s, a))
